@@ -431,3 +431,23 @@ Proof.
 From IQ Require ProfileTruncatedSpec.
 exact ProfileTruncatedSpec.rindex_spec. Qed.
 Print Assumptions C19_rindex_spec.
+
+(* ---- jaccard_similarity and merge_ranges (three `while` loops in sequence, the `included` arrays, `union[-1] = ...`, asserts inside the loop;
+        tools/translate_loops.py -> gen/Loops.v, regenerated on every check) against the hand models Intervals.jaccard / Intervals.merge_ranges:
+        for all inputs and every fuel above len(A) + len(B), exceptions included.  Simulation: the unprocessed suffixes are skipn pos1 A / skipn pos2 B,
+        the model's two flags are the `included` entries of the current heads, the source's union list is the reverse of the model's accumulator.
+        The float quotient of jaccard_similarity is the exact rational of the model's (intersection, union) pair. *)
+Theorem C19_jaccard_similarity_is_the_source : forall A B fuel, (length A + length B < fuel)%nat ->
+  Loops.py_jaccard_similarity fuel A B =
+  match Intervals.jaccard A B with
+  | Ok (i, u) => Loops.py_Done (QArith_base.Qdiv (QArith_base.inject_Z i) (QArith_base.inject_Z u)) | Raises k => Loops.py_Raises k end.
+Proof.
+From IQ Require LoopJaccardBridge.
+exact LoopJaccardBridge.jaccard_similarity_is_the_source. Qed.
+Print Assumptions C19_jaccard_similarity_is_the_source.
+Theorem C19_merge_ranges_is_the_source : forall A B fuel, (length A + length B < fuel)%nat ->
+  Loops.py_merge_ranges fuel A B = match Intervals.merge_ranges A B with Ok l => Loops.py_Done l | Raises k => Loops.py_Raises k end.
+Proof.
+From IQ Require LoopMergeRangesBridge.
+exact LoopMergeRangesBridge.merge_ranges_is_the_source. Qed.
+Print Assumptions C19_merge_ranges_is_the_source.
